@@ -2,6 +2,11 @@ import AbraModel.Drv.Util
 import AbraModel.Drv.I64
 import AbraModel.Drv.Arena
 import AbraModel.Drv.Sort
+import AbraModel.Drv.CallOrder
+import AbraModel.Drv.Pratt
+import AbraModel.Drv.StrOps
+import AbraModel.Drv.SrcMap
+import AbraModel.Drv.Sched
 /- Line-protocol model driver: one request per input line (`<component> <args…>`), one answer per line. -/
 open Abra.Drv
 
@@ -11,6 +16,12 @@ def dispatch (line : String) : String :=
   | "i64" :: rest => handleI64 rest
   | "arena" :: rest => handleArena rest
   | "sort" :: rest => handleSort rest
+  | "callorder" :: rest => handleCallOrder rest
+  | "pratt" :: rest => handlePratt rest
+  | "prattfix" :: rest => handlePrattFix rest
+  | "str" :: rest => handleStr rest
+  | "srcmap" :: rest => handleSrcMap rest
+  | "sched" :: rest => handleSched rest
   | _ => "bad-op"
 
 partial def loop (h : IO.FS.Stream) (out : IO.FS.Stream) : IO Unit := do
